@@ -1006,3 +1006,45 @@ def lock_discipline(chk, rule: str, rels=None):
                             f"on the same thread blocks for ever, the request is never answered")
                     break
     chk.ok(rule, f"{'package' if rels is None else ', '.join(sorted(rels))} | no callback under a plain Lock", "canopen/", f"{n_with} with-blocks on plain locks, {len(plain)} plain locks")
+    # a lock that a receive callback (on_message, on_*) takes is not held across an SDO exchange: the answer to that exchange is
+    # dispatched by the very thread that is then blocked in the callback, behind a frame that arrived first
+    def _sdo_exchange(node):
+        for x in ast.walk(node):
+            if isinstance(x, ast.Attribute) and x.attr in ("raw", "phys", "desc") and isinstance(x.value, ast.Subscript):
+                return x
+            if isinstance(x, ast.Call) and isinstance(x.func, ast.Attribute) and x.func.attr in ("request_response", "read_response", "upload", "download"):
+                return x
+        return None
+    n_cb = 0
+    for m in repo.modules.values():
+        if rels is not None and m.rel not in rels:
+            continue
+        try:
+            raw = ast.parse(m.src)
+        except SyntaxError:
+            continue
+        for c in [n for n in ast.walk(raw) if isinstance(n, ast.ClassDef)]:
+            meths = {f_.name: f_ for f_ in c.body if isinstance(f_, ast.FunctionDef)}
+            cb_locks = {it.context_expr.attr for nm_, f_ in meths.items() if nm_.startswith("on_") for w in ast.walk(f_) if isinstance(w, ast.With)
+                        for it in w.items if isinstance(it.context_expr, ast.Attribute) and it.optional_vars is None}
+            if not cb_locks:
+                continue
+            for nm_, f_ in meths.items():
+                if nm_.startswith("on_"):
+                    continue
+                for w in [x for x in ast.walk(f_) if isinstance(x, ast.With)]:
+                    held = [it.context_expr.attr for it in w.items if isinstance(it.context_expr, ast.Attribute) and it.optional_vars is None and it.context_expr.attr in cb_locks]
+                    if not held:
+                        continue
+                    n_cb += 1
+                    hit = None
+                    for b in w.body:
+                        hit = hit or _sdo_exchange(b)
+                        for call in [x for x in ast.walk(b) if isinstance(x, ast.Call) and isinstance(x.func, ast.Attribute) and isinstance(x.func.value, ast.Name) and x.func.value.id == "self"
+                                     and x.func.attr in meths]:
+                            hit = hit or _sdo_exchange(meths[call.func.attr])
+                    if hit is not None:
+                        chk.bad(rule, f"{m.rel}:{c.name}.{nm_} | no SDO exchange while holding {held[0]}", f"{m.rel}:{w.lineno}",
+                                f"`with self.{held[0]}:` is held across an SDO access (`{src(hit)[:50]}`), and the receive callback of this class takes the same lock: a frame for that "
+                                f"callback queued ahead of the SDO response blocks the only receiving thread, the response is never dispatched and the exchange times out")
+    chk.ok(rule, f"{'package' if rels is None else ', '.join(sorted(rels))} | receive-callback locks are not held across SDO exchanges", "canopen/", f"{n_cb} with-blocks on callback locks outside callbacks")
